@@ -587,6 +587,26 @@ def inputs_json(case):
             ("_fraction" if case["exact"] else "_estimate"), "order_hint": case.get("order")}
 
 
+def algo_lit(case):
+    """(case, order hint) for Run_Raire.agree_algo"""
+    return f"({case_lit(case)}, {C.listlit([str(x) for x in (case.get('order') or [])])})"
+
+
+def algo_cases(cases, rng=None):
+    """The stream compared output-for-output with the model of the search (RaireAlgo.raire): every case that was run
+    with the Fraction-valued difficulty function, plus an exact re-run of the ones that used the float functions."""
+    out = []
+    for c in cases:
+        if c["exact"]:
+            out.append(c)
+        else:
+            c2 = dict(c, exact=True, tag=(c.get("tag") or "") + "/exact-rerun")
+            c2.pop("impl", None)
+            out.append(c2)
+    run_cases([c for c in out if "impl" not in c], rng)
+    return out
+
+
 def case_json(case):
     o = case["impl"]
     prev = case.get("prev")
